@@ -11,8 +11,8 @@ DEFAULT = {"op": "nop", "o": "", "o2": "", "v": 0, "w": 0, "ord": "", "ord2": ""
 
 ATOM_OPS = {"ld", "st", "rmw", "cas", "await", "wmut", "uld"}
 CELL_OPS = {"rd", "wr", "wrrd", "rdwr"}
-MTX_OPS = {"lock", "trylock", "unlock"}
-RW_OPS = {"read", "write", "tryread", "trywrite", "unlockr", "unlockw"}
+MTX_OPS = {"lock", "trylock", "unlock", "mset", "mget", "mgetmut", "minto"}
+RW_OPS = {"read", "write", "tryread", "trywrite", "unlockr", "unlockw", "rwset", "rwget", "rwgetmut", "rwinto"}
 CV_OPS = {"cvwait", "notify1", "notifyall"}
 NTF_OPS = {"nwait", "notify"}
 CHAN_OPS = {"send", "recv", "tryrecv", "droprx"}
@@ -22,7 +22,8 @@ TL_OPS = {"tlwith", "tlnest"}
 LZ_OPS = {"lzget", "lzread"}
 # operations that return a value (append to regs)
 RET_OPS = {"ld", "rmw", "cas", "await", "uld", "trylock", "tryread", "trywrite", "recv",
-           "tryrecv", "acount", "agetmut", "aunwrap", "aptreq", "tlwith", "tlnest", "lzget", "blockon"}
+           "tryrecv", "acount", "agetmut", "aunwrap", "aptreq", "tlwith", "tlnest", "lzget", "blockon",
+           "mget", "mgetmut", "minto", "rwget", "rwgetmut", "rwinto"}
 BLOCKING_OPS = {"join", "park", "lock", "read", "write", "cvwait", "nwait", "recv", "await"}
 
 
